@@ -172,6 +172,12 @@ def numTokSpec (F : NumFmt) : GateSpecification → Bool
   | .pauliSum s => s.terms.all fun t => numTokOk F t.expression
   | .sequence s => s.gates.all fun g => g.parameters.all (numTokOk F)
 
+/-- the extra NumTok fact DELAY needs: a purely imaginary literal is written with a `Float` token (the real
+printer never trims the imaginary part: `FORMAT_IMAGINARY_OPTIONS`), so it cannot be taken for a qubit -/
+def delayImagOk (F : NumFmt) : PExpr → Bool
+  | .number z => !(fZero z.re && !fZero z.im) || (match F.imag (fAbs z.im) with | .float _ => true | _ => false)
+  | _ => true
+
 mutual
 /-- every expression leaf (and every CALL immediate) of the instruction satisfies the NumTok hypothesis of
 `QV.ExprPrint`: the token written for the magnitude of a literal denotes that magnitude bit for bit -/
@@ -180,7 +186,7 @@ def numTokInstr (F : NumFmt) : Instruction → Bool
   | .call c => c.arguments.all fun a => match a with | .immediate z => numTokOkAt F z | _ => true
   | .capture c => c.waveform.parameters.all fun kv => numTokOk F kv.2
   | .circuitDefinition _ _ _ body => numTokInstrs F body
-  | .delay d => numTokOk F d.duration
+  | .delay d => numTokOk F d.duration && delayImagOk F d.duration
   | .frameDefinition f =>
     f.attributes.all fun kv => match kv.2 with | .expression e => numTokOk F e | .string _ => true
   | .gate g => g.parameters.all (numTokOk F)
@@ -226,7 +232,8 @@ def provedKind : Instruction → Bool
   | .store _ | .unaryLogic _ | .halt | .nop | .wait | .jump _ | .jumpWhen _ | .jumpUnless _ | .label _
   | .include _ | .declaration _ | .fence _ | .reset _ | .measurement _ | .pragma _ => true
   | .gate _ | .setFrequency _ | .setPhase _ | .setScale _ | .shiftFrequency _ | .shiftPhase _
-  | .swapPhases _ => true
+  | .swapPhases _ | .delay _ => true
+  | .rawCapture r => r.memoryReference.name != "i"
   | _ => false
 
 end QV.C02
